@@ -338,6 +338,12 @@ impl Check for C18 {
                                     v.push(viol("C18", "C18/link_not_validated".into(), format!("link {a}-{b} (length {d}) has an unvalidated stretch of {gap} at {at}")));
                                     break 'calls;
                                 }
+                                // "joined by a validated motion", looked at directly along the
+                                // harness's own interpolation
+                                if let Some(at) = ev.invalid_stretch(&**g, w, &snap[a].0, &snap[b].0) {
+                                    v.push(viol("C18", "C18/link_crosses_invalid_stretch".into(), format!("link {a}-{b} (length {d}) crosses an invalid stretch longer than 1.25 L near position {at}")));
+                                    break 'calls;
+                                }
                             } else if free && d < r && !near_thr {
                                 v.push(viol("C18", "C18/missing_link".into(), format!("obstacle-free world: milestones {a},{b} are {d} < {r} apart but not linked")));
                                 break 'calls;
